@@ -122,6 +122,11 @@ def configs(tier):
                   "major": {"1": 1, "3": 1}, "mode": "noise", "phase": "A"})
         c.append({"gene": "GA", "genome": genome, "cn": ["1", "1"],
                   "major": {"3": 1, "4": 1}, "mode": "noise", "phase": "A"})
+        # fused alleles: fragments that span the fusion break point
+        c.append({"gene": "toy", "genome": genome, "cn": ["1", "4"],
+                  "major": {"1": 1, "4#3": 1}, "mode": "noise", "phase": "A"})
+        c.append({"gene": "GA", "genome": genome, "cn": ["1", "5"],
+                  "major": {"2": 1, "5#3": 1}, "mode": "noise", "phase": "A"})
         if tier == "thorough":
             c.append({"gene": "toy", "genome": genome, "cn": ["1", "1"],
                       "major": {"2": 1, "3": 1}, "mode": "noise", "phase": "B"})
